@@ -258,6 +258,9 @@ class HTTP(BaseComponent):
                     )
                 req.server = self._server
                 res = wrappers.Response(req, encoding=self._encoding)
+                # answer in a version we speak, not in whatever the request line named
+                rp, sp = req.protocol, self.protocol
+                res.protocol = 'HTTP/{:d}.{:d}'.format(*(min(rp, sp) if rp[0] == sp[0] else sp))
                 del self._buffers[sock]
                 return self.fire(httperror(req, res, 400))
             return None
